@@ -643,6 +643,39 @@ func genUp(g *lp.Gen) {
 	g.P("E")
 }
 
+// genRTQ: round trips with the executor of the poller path (Execute only queues the job; the harness runs the queue after
+// each Parse call or after all segments), payload release on/off, the real pooling allocator; batches of messages written
+// back to back so that several callbacks are pending while later frames are parsed.  Clean programs only (valid text, no
+// close, no limit): the order of the observable actions is then the same as with the inline executor.
+func genRTQ(g *lp.Gen) {
+	comp := g.Chance(1, 3)
+	mf := g.PickInt(32768, 32768, 125, 1000, 7)
+	g.P("C rt compress=%d level=%d limit=0 maxframe=%d seg=%s seed=%d exec=%s rel=%d run=%s", b2i(comp), g.PickInt(1, 6), mf,
+		g.Pick("whole", "rand", "small", "hdr"), g.Intn(1<<30), g.Pick("queued", "queued", "queued", "inline"), g.PickInt(1, 1, 0), g.Pick("end", "end", "each"))
+	nb := 1 + g.Intn(3)
+	for b := 0; b < nb; b++ {
+		n := 2 + g.Intn(10)
+		var ms []string
+		for i := 0; i < n; i++ {
+			ln := g.PickInt(0, 1, 5, 17, 100, 124, 125, 126, 300, 1000, 1024, 1100, 4000)
+			if mf < 100 && ln > 600 {
+				ln = 600
+			}
+			switch g.Intn(8) {
+			case 0, 1, 2:
+				ms = append(ms, "text/"+specOf(utf8Text(g, ln)))
+			case 3, 4, 5:
+				ms = append(ms, "binary/"+specOf(randBytes(g, ln)))
+			case 6:
+				ms = append(ms, "ping/"+specOf(randBytes(g, g.PickInt(0, 5, 125))))
+			default:
+				ms = append(ms, fmt.Sprintf("binary/@%d:%d", ln, g.Intn(256)))
+			}
+		}
+		g.P("B %s %s", g.Pick("c", "s"), strings.Join(ms, ";"))
+	}
+}
+
 func genRT(g *lp.Gen) {
 	comp := g.Chance(1, 2)
 	level := g.PickInt(-2, -1, 0, 1, 2, 3, 4, 5, 6, 7, 8, 9)
@@ -974,8 +1007,10 @@ func gen(g *lp.Gen) {
 			genRecv(g)
 		case x < 70:
 			genUp(g)
-		case x < 97:
+		case x < 90:
 			genRT(g)
+		case x < 97:
+			genRTQ(g)
 		default:
 			genMask(g, false)
 		}
